@@ -388,6 +388,21 @@ def singleInstance (cfg : Nat → Cfg) (h : Hist) : Bool :=
   (adapters h).all fun a => (adapters h).all fun a' =>
     a == a' || !((cfg a).addr == (cfg a').addr) || !(running a h && running a' h)
 
+/-- adapter `a` is registered: its address was (re-)registered and `a` was not taken down since
+(`Unregister`, `Close`; `Restart` and a reported peer loss take it down and register it again) -/
+def registeredIn (cfg : Nat → Cfg) (a : Nat) : Hist → Bool
+  | [] => false
+  | .op o :: h => registers cfg a o || (!clears a o && registeredIn cfg a h)
+  | _ :: h => registeredIn cfg a h
+
+/-- **an unregistered adapter is left alone**: the manager calls `Start` only on an adapter that is
+registered at that moment — neither the retry ticker nor anything else revives an adapter after
+`Unregister` or after the manager was closed. -/
+def startedOnlyRegistered (cfg : Nat → Cfg) : Hist → Bool
+  | [] => true
+  | .start a _ :: h => registeredIn cfg a h && startedOnlyRegistered cfg h
+  | _ :: h => startedOnlyRegistered cfg h
+
 /-- All clauses for one observation. -/
 def obsOk (cfg : Nat → Cfg) (b : Nat) (o : Obs) : Bool :=
   noPanic o &&
